@@ -267,6 +267,7 @@ FPlan generate(const std::string &prop, const std::string &tier, uint64_t seed)
         if (p.L == 0)
             p.options |= 1 + (int)r.below(3);
         nops = (int)r.range(2, 14);
+        p.enumerate = true; // plus every single failure to create a file
     } else if (prop == "C09") {
         p.options |= 2;
         daily = true;
